@@ -260,6 +260,50 @@ pub fn state_metadata(_cex: &Value) -> Result<String, String> {
         Ok(r) if r.core_document() == d.core_document() => {}
         _ => log.push("[rebase] combination document does not round-trip for its own DID".into()),
       }
+      // a foreign DID of another method that happens to carry the same method-specific id is not a self-reference
+      {
+        use identity_did::DID as _;
+        let twin = CoreDID::parse(format!("did:example:{}", did_self.method_id())).unwrap();
+        let mut d2 = IotaDocument::new_with_id(did_self.clone());
+        let m = VerificationMethod::builder(Default::default())
+          .id(twin.to_url().join("#twin").unwrap())
+          .controller(twin.clone())
+          .type_(MethodType::ED25519_VERIFICATION_KEY_2018)
+          .data(MethodData::new_multibase(b"some-public-key-bytes-0123456789"))
+          .build()
+          .unwrap();
+        d2.insert_method(m, MethodScope::authentication()).unwrap();
+        for tgt in [&did_self, &target] {
+          match d2.clone().pack().and_then(|p| StateMetadataDocument::unpack(&p)).and_then(|x| x.into_iota_document(tgt)) {
+            Ok(r) => {
+              let q = format!("{twin}#twin");
+              match r.resolve_method(q.as_str(), None) {
+                Some(m) if m.controller() == &twin => {}
+                _ => log.push(format!("[rebase] foreign DID {twin} (same method-specific id as the document) was rewritten when rebasing onto {tgt}")),
+              }
+            }
+            Err(e) => log.push(format!("[rebase] document with a same-id foreign DID fails to rebase: {e}")),
+          }
+        }
+      }
+    }
+    // metadata members with default-looking values survive pack / unpack (Some(false), empty strings)
+    {
+      for deact in [None, Some(false), Some(true)] {
+        let mut dm = doc.clone();
+        dm.metadata.deactivated = deact;
+        match dm.clone().pack().and_then(|p| StateMetadataDocument::unpack(&p)).and_then(|x| x.into_iota_document(&did_self)) {
+          Ok(r) => {
+            if r.metadata.deactivated != deact {
+              log.push(format!("[metadata] deactivated = {deact:?} comes back as {:?}", r.metadata.deactivated));
+            }
+            if r.metadata != dm.metadata {
+              log.push(format!("[metadata] metadata differs after pack / unpack for the same DID (deactivated = {deact:?})"));
+            }
+          }
+          Err(e) => log.push(format!("[metadata] document with deactivated = {deact:?} does not unpack: {e}")),
+        }
+      }
     }
     // a non-IOTA id in the packed form must be refused on unpack
     let text = String::from_utf8_lossy(&packed[7..]).replace(FOREIGN, "did:example:abc");
